@@ -354,6 +354,13 @@ func (h *stmtHarness) expect(st *Stmt, cur map[string]*mGraphC4) effect {
 					e.judged, e.why = false, "a binding holds a value that cannot stand in the template position"
 					return e
 				}
+				if strings.HasPrefix(ob, "N|/_|") || strings.HasPrefix(sub, "N|/_|") {
+					// a blank node that the WHERE pattern read from a graph (stored there as somebody's object) is written
+					// again: observe() canonicalises such ids, several of them collapse to one key - executed, checked for
+					// collateral changes, the model is re-synchronised, not judged
+					e.judged, e.why = false, "the template writes a blank node read from a graph"
+					return e
+				}
 				if len(tmpl.Extra) == 0 {
 					plain = append(plain, sub+"\t"+predKey(p)+"\t"+ob)
 					continue
